@@ -36,6 +36,11 @@ pub struct PRule {
     pub enabled: bool,
     pub cond: PCond,
     pub set: Option<(u8, i64)>,
+    /// a Custom action calling a harness-registered function that WRITES facts: 0 = remove F.d,
+    /// 1 = set F.d to 7. Generated only on the highest salience level, one kind per workload, and
+    /// F.d is read only by rules on lower levels — so the outcome is the same on every schedule
+    #[serde(default)]
+    pub custom: Option<u8>,
 }
 
 #[derive(Clone, Debug, Serialize, Deserialize)]
@@ -123,6 +128,9 @@ fn build_kb(w: &ParWorkload) -> KnowledgeBase {
         if let Some((f, v)) = r.set {
             actions.push(ActionType::Set { field: fname(f), value: Value::Integer(v) });
         }
+        if let Some(k) = r.custom {
+            actions.push(ActionType::Custom { action_type: if k % 2 == 0 { "dropD" } else { "setD7" }.to_string(), params: std::collections::HashMap::new() });
+        }
         let mut rule = Rule::new(format!("R{i}"), to_group(&r.cond), actions).with_salience(r.salience);
         rule.enabled = r.enabled;
         let _ = kb.add_rule(rule);
@@ -146,6 +154,14 @@ fn engine(w: &ParWorkload, enabled: bool) -> ParallelRuleEngine {
             Some(Value::Number(n)) => *n > 0.0,
             _ => false,
         }))
+    });
+    e.register_function("dropD", |_args: &[Value], f: &Facts| {
+        f.remove("F.d");
+        Ok(Value::Boolean(true))
+    });
+    e.register_function("setD7", |_args: &[Value], f: &Facts| {
+        f.set("F.d", Value::Integer(7));
+        Ok(Value::Boolean(true))
     });
     e
 }
@@ -234,6 +250,9 @@ pub fn scenario(w: &ParWorkload, slot: &Shared) {
     if w.rules.iter().any(|r| has_foreign_literal(&r.cond)) {
         count(slot, "probe.literal_of_another_type_than_the_field");
     }
+    if w.rules.iter().any(|r| r.custom.is_some() && r.enabled) {
+        count(slot, "probe.action_that_writes_a_fact_on_the_top_level");
+    }
     if !w.enabled {
         count(slot, "probe.parallelism_off");
     }
@@ -259,7 +278,7 @@ pub fn generate(rng: &mut Rng, _thorough: bool) -> ParWorkload {
     let sal = [0i32, 0, 0, 5, -2];
     let mut rules: Vec<PRule> = Vec::new();
     for _ in 0..n {
-        let mut r = PRule { salience: *rng.pick(&sal), enabled: !rng.chance(1, 8), cond: gen_cond(rng, 0), set: if rng.chance(1, 3) { Some((rng.below(4) as u8, rng.range(-1, 3))) } else { None } };
+        let mut r = PRule { salience: *rng.pick(&sal), enabled: !rng.chance(1, 8), cond: gen_cond(rng, 0), set: if rng.chance(1, 3) { Some((rng.below(4) as u8, rng.range(-1, 3))) } else { None }, custom: None };
         // 1 in 6: a near-twin of an earlier rule on the same level — the same guard with the literal typed
         // differently, or the same guard with the neighbouring literal — so that anything that identifies
         // "the same condition" too coarsely has something to confuse
@@ -271,6 +290,32 @@ pub fn generate(rng: &mut Rng, _thorough: bool) -> ParWorkload {
             }
         }
         rules.push(r);
+    }
+    // one workload in five: rules of the highest salience level carry an action that writes a fact
+    // (removes F.d, or sets it) through a registered function; those rules do not read F.d themselves
+    if rng.chance(1, 5) {
+        fn avoid_d(c: &mut PCond) {
+            match c {
+                PCond::Atom { field, .. } | PCond::Func { field, .. } => {
+                    if *field % 4 == 3 {
+                        *field = 0;
+                    }
+                }
+                PCond::And(a, b) | PCond::Or(a, b) => {
+                    avoid_d(a);
+                    avoid_d(b);
+                }
+                PCond::Not(a) => avoid_d(a),
+            }
+        }
+        let top = rules.iter().filter(|r| r.enabled).map(|r| r.salience).max().unwrap_or(0);
+        let kind = rng.below(2) as u8;
+        for r in rules.iter_mut().filter(|r| r.salience == top) {
+            avoid_d(&mut r.cond);
+            if rng.chance(1, 2) {
+                r.custom = Some(kind);
+            }
+        }
     }
     ParWorkload {
         rules,
@@ -304,6 +349,11 @@ pub fn shrink(w: &ParWorkload) -> Vec<ParWorkload> {
             c.rules[i].cond = simple;
             out.push(c);
         }
+        if w.rules[i].custom.is_some() {
+            let mut c = w.clone();
+            c.rules[i].custom = None;
+            out.push(c);
+        }
         if w.rules[i].set.is_some() {
             let mut c = w.clone();
             c.rules[i].set = None;
@@ -334,7 +384,7 @@ pub fn describe() -> (&'static str, Vec<&'static str>, Vec<&'static str>, Vec<&'
         vec!["thread scheduler (shuttle RandomScheduler / PCT, seeded)", "the caller", "custom function isPos (harness, pure)"],
         vec![
             "the reference is the same engine with parallelism off on a deep copy of the initial facts; the harness's own typed-core evaluation is a second reference used only when the run left the facts unchanged, and only for rules whose literals are integers like the fields",
-            "rule sets with condition kinds that write facts while workers read them (accumulate) are outside the typed core and not generated",
+            "rule sets in which a worker writes a fact that another rule of the SAME salience level reads have no schedule-independent outcome and are not generated; facts are written (one workload in five) only by actions of the highest level, one kind of write per workload, and read only by lower levels",
             "max_threads >= 1 (the property's range)",
         ],
     )
